@@ -110,6 +110,27 @@ def r06_1(ck, F):
     ck.expect(n >= 6, "sender#queue-ops", f"{n} queue operations", f"only {n} queue operations found", None)
 
 
+def r06_1b(ck, F):
+    ck.rule("R06.1b", "end-of-stream is declared only by the peer's Finished message: every store `finished = true` in "
+            "chmux::Receiver (recv_any, recv_chunk) is control-dependent on the received PortReceiveMsg being Finished — in "
+            "particular not on the port queue having been closed by a dying dispatcher",
+            "transport failure, then a second receive on the same port: the first returns Err(ChMux), every later recv / "
+            "recv_chunk / stream item returns Ok(None) — the failed connection looks like a sender that finished normally",
+            floor=2)
+    n = 0
+    for fn in ("chmux::receiver::Receiver::recv_any", "chmux::receiver::Receiver::recv_chunk"):
+        b = F.main_body(fn)
+        for bb, i, s in b.field_stores("finished"):
+            if s["rv"]["r"] != "use" or const_value(b.expr(s["rv"]["o"])) != 1:
+                continue
+            n += 1
+            ok = any(isinstance(e, tuple) and e and e[0] == "discr" and m == "Finished" for e, m in conds(b, bb))
+            ck.expect(ok, f"{fn.split('::')[-1]}#finished-only-on-Finished@{n}", "finished = true under PortReceiveMsg::Finished",
+                      f"{fn} sets finished = true at {b.loc(bb, i)} outside the Finished arm: later receives report a regular "
+                      f"end-of-stream", b.loc(bb, i))
+    ck.expect(n >= 2, "Receiver#finished-stores", f"{n} stores", f"only {n} stores of finished = true found", None)
+
+
 def r06_2(ck, F):
     ck.rule("R06.2", "the dispatcher returns the first error: in ChMux::run the results of handle_event and "
             "handle_received_msg go through `?`, Err outcomes of the send / receive tasks are returned; in recv_task the "
@@ -341,7 +362,7 @@ def r06_5(ck, F):
 
 
 def run(ck, F):
-    for r in (r06_1, r06_2, r06_2b, r06_3, r06_3b, r06_4, r06_5):
+    for r in (r06_1, r06_1b, r06_2, r06_2b, r06_3, r06_3b, r06_4, r06_5):
         ck.run_rule(r)
     import c19
     ck.run_rule(c19.r19_5)
